@@ -4,6 +4,26 @@ from props.c02 import trace_stage
 from vlib import common
 
 
+def _probe(times):
+    """A do-nothing observable due at the end of every time step, so that fill_results runs its full body."""
+    from pulser.backend import Observable
+
+    class Probe(Observable):
+        @property
+        def _base_tag(self):
+            return "probe"
+
+        def apply(self, *, config, state, hamiltonian, **kw):
+            return 0.0
+
+    try:  # pulser-core >= 1.9 wants the aggregation method declared
+        from pulser.backend.observable import AggregationMethod
+        kw = {"default_aggregation_method": AggregationMethod.SKIP}
+    except ImportError:
+        kw = {}
+    return Probe(evaluation_times=[t / times[-1] for t in times[1:]], **kw)
+
+
 def falsifier(ctx, n_cases):
     """Property-level oracle on the REAL NoisyMPSBackendImpl with scripted norm/uniform streams:
     fills once per step in order at the step's end time; every jump time inside the step in progress;
@@ -11,7 +31,7 @@ def falsifier(ctx, n_cases):
     for i in range(n_cases):
         case = T.gen_case(ctx.rng, "Noisy")
         case["nprog"] = 5000
-        r = T.run_impl(case)
+        r = T.run_impl(case, observables=[_probe(case["times"])] if i % 2 == 0 else None)
         if r["outcome"] in ("assert", "oracle", "index", "value"):
             continue  # scripted stream made the run stop (threshold hit exactly, stream exhausted, ...)
         times = case["times"]
@@ -24,6 +44,11 @@ def falsifier(ctx, n_cases):
         if r["outcome"] == "finished" and len(fills) != case["steps"] + 1:
             ctx.violation("finished run did not record every time step",
                           {"case": ser, "fills": fills, "finding_key": "noisy-fill-count"})
+        if r.get("rescaled"):
+            ctx.violation("the evolving state was rescaled in place outside do_random_quantum_jump at (time, inside "
+                          f"fill_results) = {r['rescaled'][:3]}: its norm is the quantum-jump clock (jump when norm^2 falls "
+                          "below the threshold), so jumps are delayed or lost",
+                          {"case": ser, "rescaled": r["rescaled"][:10], "finding_key": "norm-clock-reset"})
         if r["outcome"] == "budget":
             ctx.violation("noisy run did not terminate within 5000 progress() calls",
                           {"case": ser, "finding_key": "noisy-nontermination"})
